@@ -28,6 +28,10 @@ type BankKnobs struct {
 	PDur      int  // function advances the mock clock
 	VisErr    bool // Visualize ops carry the error of the last failed Invoke
 	PVisErr   int
+	PVisAfter int // a Visualize(VisualizeError) op is placed right after an Invoke
+	PDeepFail int // Invoke entries whose direct parameters are provided but not buildable
+	PDeep     int // prefer entries that have parameters (deeper closures)
+	PChain    int // prefer entries that consume an output of the most recently registered constructor
 }
 
 func DefaultBankKnobs() BankKnobs {
@@ -39,6 +43,7 @@ func DefaultBankKnobs() BankKnobs {
 }
 
 type bankGen struct {
+	last *MFn // most recently registered constructor (predicted accepted)
 	*gen
 	bk      BankKnobs
 	used    map[int]int
@@ -83,7 +88,69 @@ func (g *bankGen) pickEntry(kind string, s int, lbl string) (int, bool) {
 			return usedL[g.pick(len(usedL), lbl+"ru")], true
 		}
 	}
+	if kind == "invoke" && g.pct(g.bk.PDeepFail, lbl+"deepfail") {
+		// direct parameters all have a visible constructor, but something
+		// deeper is missing
+		var deep []int
+		for _, i := range all {
+			mf := NewMFn(BankFn(i, -1), nil, mk, s)
+			direct := true
+			for _, lf := range mf.Leaves {
+				if !lf.Opt && !lf.IsGroup && g.m.ExpectSingle(mf, lf.Key) == nil {
+					direct = false
+				}
+			}
+			if ok, _ := g.m.Available(mf); direct && !ok {
+				deep = append(deep, i)
+			}
+		}
+		if len(deep) > 0 {
+			return deep[g.pick(len(deep), lbl+"df")], true
+		}
+	}
+	if kind == "ctor" && len(good) > 0 {
+		// prefer entries whose single keys are not provided yet in this scope
+		var fresh []int
+		for _, i := range good {
+			mf := NewMFn(BankFn(i, -1), nil, KCtor, s)
+			if g.m.DupProvide(mf) == "" {
+				fresh = append(fresh, i)
+			}
+		}
+		if len(fresh) > 0 && g.pct(88, lbl+"fresh") {
+			good = fresh
+		}
+	}
+	if kind == "invoke" && len(good) == 0 && !g.pct(15, lbl+"anyway") {
+		return 0, false
+	}
 	if len(good) > 0 && g.pct(g.bk.PAvail, lbl+"av") {
+		if g.last != nil && g.pct(g.bk.PChain, lbl+"chain") {
+			var chain []int
+			for _, i := range good {
+				mf := NewMFn(BankFn(i, -1), nil, mk, s)
+				for _, lf := range mf.Leaves {
+					if g.last.SlotFor(lf.Key) >= 0 && g.m.IsAnc(g.last.Home, s) {
+						chain = append(chain, i)
+						break
+					}
+				}
+			}
+			if len(chain) > 0 {
+				return chain[g.pick(len(chain), lbl+"ch")], true
+			}
+		}
+		if g.pct(g.bk.PDeep, lbl+"deep") {
+			var withParams []int
+			for _, i := range good {
+				if len(BankSpecs[i].P) > 0 {
+					withParams = append(withParams, i)
+				}
+			}
+			if len(withParams) > 0 {
+				return withParams[g.pick(len(withParams), lbl+"gp")], true
+			}
+		}
 		return good[g.pick(len(good), lbl+"g")], true
 	}
 	if len(all) == 0 {
@@ -116,8 +183,17 @@ func GenBankCase(t *rapid.T, bk BankKnobs) *Case {
 	g.c.Cfg.Defer = g.pct(bk.PDefer, "defer")
 	g.c.Cfg.Recover = g.pct(bk.PRecover, "recover")
 	nops := rapid.IntRange(bk.MinOps, bk.MaxOps).Draw(t, "nops")
-	total := bk.WScope + bk.WProvide + bk.WDecorate + bk.WInvoke + bk.WVisualize + bk.WString
 	for len(g.c.Ops) < nops {
+		// registrations dominate the first half of a history, invocations
+		// the second half
+		early := len(g.c.Ops)*2 < nops
+		bk := bk
+		if early {
+			bk.WProvide *= 3
+		} else {
+			bk.WInvoke *= 3
+		}
+		total := bk.WScope + bk.WProvide + bk.WDecorate + bk.WInvoke + bk.WVisualize + bk.WString
 		r := g.pick(total, "op")
 		s := g.pick(g.nscope, "s")
 		switch {
@@ -155,6 +231,7 @@ func GenBankCase(t *rapid.T, bk BankKnobs) *Case {
 			mf := NewMFn(f, op.O, KCtor, s)
 			if g.m.DupProvide(mf) == "" && !g.m.DigCycle(mf) {
 				g.m.AddCtor(mf)
+				g.last = mf
 			}
 			g.c.Ops = append(g.c.Ops, op)
 		case r < bk.WScope+bk.WProvide+bk.WDecorate:
@@ -184,6 +261,20 @@ func GenBankCase(t *rapid.T, bk BankKnobs) *Case {
 		case r < bk.WScope+bk.WProvide+bk.WDecorate+bk.WInvoke:
 			i, ok := g.pickEntry("invoke", s, "ie")
 			if !ok {
+				// nothing can be invoked yet: register something instead
+				if j, ok2 := g.pickEntry("ctor", s, "pe2"); ok2 {
+					g.used[j]++
+					f := BankFn(j, g.nextID+1)
+					g.nextID++
+					g.decorate(f)
+					op := Op{K: OpProvide, S: s, F: f}
+					mf := NewMFn(f, nil, KCtor, s)
+					if g.m.DupProvide(mf) == "" && !g.m.DigCycle(mf) {
+						g.m.AddCtor(mf)
+						g.last = mf
+					}
+					g.c.Ops = append(g.c.Ops, op)
+				}
 				continue
 			}
 			g.used[i]++
@@ -196,6 +287,10 @@ func GenBankCase(t *rapid.T, bk BankKnobs) *Case {
 			}
 			g.c.Ops = append(g.c.Ops, op)
 			g.lastErr = len(g.c.Ops) - 1
+			if g.pct(bk.PVisAfter, "visafter") {
+				e := g.lastErr
+				g.c.Ops = append(g.c.Ops, Op{K: OpVisualize, ErrOf: &e})
+			}
 		case r < bk.WScope+bk.WProvide+bk.WDecorate+bk.WInvoke+bk.WVisualize:
 			op := Op{K: OpVisualize}
 			if g.lastErr >= 0 && g.pct(bk.PVisErr, "viserr") {
